@@ -10,7 +10,7 @@ os.makedirs(dst, exist_ok=True)
 for f in ("patch.diff", "demo.py", "notes.md"):
     if os.path.exists(os.path.join(src, f)):
         shutil.copy(os.path.join(src, f), os.path.join(dst, f))
-out = subprocess.run([os.path.join(root, "tools", "seedeval.sh"), prop, dst], capture_output=True, text=True).stdout
+out = subprocess.run([os.path.join(root, "tools", "seedeval.sh"), os.environ.get("SEED_CHECK", prop), dst], capture_output=True, text=True).stdout
 m = re.search(r"RESULT prop=(\S+) tests='([^']*)' demo_mutant_rc=(\d+) demo_clean_rc=(\d+) check_rc=(\d+)", out)
 lines = [l[:400] for l in out.splitlines() if l.startswith(("VIOLATION", "  monitor", "INCONCLUSIVE")) or "verdict=" in l]
 meta = {
@@ -23,7 +23,7 @@ meta = {
     "demo_exit_with_change": int(m.group(3)) if m else None,
     "demo_exit_without_change": int(m.group(4)) if m else None,
     "check_exit_with_change": int(m.group(5)) if m else None,
-    "caught_by": f"./check {prop} quick" if m and m.group(5) == "1" else None,
+    "caught_by": f"./check {os.environ.get('SEED_CHECK', prop)} quick" if m and m.group(5) == "1" else None,
     "check_output": lines[:6],
     "repo_head": subprocess.check_output(["git", "-C", "/repo", "log", "--format=%h", "-1"], text=True).strip(),
 }
